@@ -78,7 +78,12 @@ def corr_phase(prop, spec, tier, seed, res, budget_scale=1):
             cases.append(("gen", c))
         pairs = corr.run_pair(part["domain"], [c for _, c in cases], harness_extra=part.get("harness_extra"),
                               timeout=part.get("timeout", 600), jobs=part.get("jobs", 8), chunk=part.get("chunk", 64))
+        infos = []
         for (origin, lines), (impl, model) in zip(cases, pairs):
+            impl, info = corr.split_info(impl)
+            infos.append((lines, info))
+            for l in info:
+                dist["info:" + l.split(" ", 1)[0]] += 1
             if hasattr(dom, "normalize"):
                 impl, model = dom.normalize(lines, impl, model)
             if impl is not None and len(impl) > 4000:
@@ -99,6 +104,9 @@ def corr_phase(prop, spec, tier, seed, res, budget_scale=1):
                 distinct.add(hashlib.sha1("\n".join(impl).encode()).hexdigest())
                 if len(samples) < 3:
                     samples.append({"domain": part["domain"], "input": lines[:40], "impl_trace": impl[:40]})
+        if hasattr(dom, "judge_info"):
+            for lines, why in dom.judge_info(prop, infos):
+                divergences.append(dict(part=part, lines=lines, impl=["<info-line judge>"], model=[], at=0, origin="judge", judged=why))
     stats["distinct_nontrivial"] = len(distinct)
     stats["samples"] = samples
     stats["distribution"] = dict(sorted(dist.items()))
@@ -106,6 +114,8 @@ def corr_phase(prop, spec, tier, seed, res, budget_scale=1):
 
 def classify(prop, dv):
     """does the property itself fail on the implementation's trace of this divergence?"""
+    if dv.get("judged"):
+        return dv["judged"]
     part = dv["part"]
     dom = importlib.import_module("checklib.domains." + part["domain_module"])
     return dom.property_fails(prop, dv["lines"], dv["impl"], dv["model"])
@@ -115,6 +125,9 @@ def shrink_divergence(prop, dv, want_property_failure):
     dom = importlib.import_module("checklib.domains." + part["domain_module"])
     def still(cand):
         (impl, model), = corr.run_pair(part["domain"], [cand], harness_extra=part.get("harness_extra"), timeout=60, jobs=2)
+        impl, info = corr.split_info(impl)
+        if dv.get("judged"):
+            return bool(dom.judge_info(prop, [(cand, info)]))
         if hasattr(dom, "normalize"):
             impl, model = dom.normalize(cand, impl, model)
         if corr.first_diff(impl, model) is None:
@@ -124,7 +137,9 @@ def shrink_divergence(prop, dv, want_property_failure):
         return True
     small = corr.shrink(part["domain"], dv["lines"], still, protect=getattr(dom, "protect", lambda l: False))
     (impl, model), = corr.run_pair(part["domain"], [small], harness_extra=part.get("harness_extra"), timeout=60, jobs=2)
-    if hasattr(dom, "normalize"):
+    if not dv.get("judged"):
+        impl, _ = corr.split_info(impl)
+    if hasattr(dom, "normalize") and not dv.get("judged"):
         impl, model = dom.normalize(small, impl, model)
     return dict(dv, lines=small, impl=impl, model=model, at=corr.first_diff(impl, model))
 
@@ -287,6 +302,16 @@ def replay(prop, spec, path):
         print("harness build failed:\n" + msg)
         return 1
     (impl, model), = corr.run_pair(payload["domain"], [payload["input"]], harness_extra=payload.get("harness_extra"), timeout=120, jobs=2)
+    impl_full = impl
+    impl, info = corr.split_info(impl)
+    part0 = [p for p in spec["parts"] if p["domain"] == payload["domain"]]
+    if part0:
+        dom0 = importlib.import_module("checklib.domains." + part0[0]["domain_module"])
+        if hasattr(dom0, "normalize"):
+            impl, model = dom0.normalize(payload["input"], impl, model)
+        if hasattr(dom0, "judge_info"):
+            for _, why in dom0.judge_info(prop, [(payload["input"], info)]):
+                print("REPLAY: info-line judge: " + why)
     d = corr.first_diff(impl, model)
     print("input:"); [print("  " + l) for l in payload["input"]]
     print("implementation trace:"); [print("  " + l) for l in impl]
